@@ -108,6 +108,13 @@ Theorem C10_pool_swallows_refuted :
 Proof. repeat split; vm_compute; congruence. Qed.
 Print Assumptions C10_pool_swallows_refuted.
 
+(* stated, not proved: the link between the two halves — the files the submitted tasks write, in any order, are the files
+   of [encode].  Every generated case evaluates its instance on the extracted model (command "link" of the dispatch). *)
+Definition C10_pool_builds_encode_full_statement : Prop :=
+  forall o inplace t d, keys_distinct t = true -> encode o t = Ok d ->
+  forall ts', Permutation (tasks_of o t []) ts' ->
+  forall k, mget floc_eqb k (fs (run_pool o inplace t ts')) = mget floc_eqb k (flatten [] d).
+
 (* ================================================================== (c) make_memmap on a saved tensordict *)
 
 (* a new tensor under a new key of the root (make_memmap / make_memmap_from_tensor / make_memmap_from_storage): the
@@ -119,6 +126,12 @@ Theorem C10_make_memmap_merge : forall o bs ents k l d,
              /\ decode d' = Ok (norm (Node bs (ents ++ [(k, Leaf l)]))).
 Proof. exact make_memmap_merge_lemma. Qed.
 Print Assumptions C10_make_memmap_merge.
+
+(* stated, not proved: the same for a nested key (intermediate nodes created by _make_memmap_subtd, each with its own
+   read-modify-write of the parent's meta.json).  The correspondence run compares directory and loader on such calls. *)
+Definition C10_make_memmap_merge_full_statement : Prop :=
+  forall o t ks k l d t' d', valid_root o t = true -> leaf_ok o l = true -> Forall (fun x => reserved x = false) (k :: ks) ->
+  encode o t = Ok d -> grow_at ks k l t d = Ok (t', d') -> decode d' = Ok (norm t').
 
 (* ================================================================== non-vacuity *)
 Definition ex_tree : td :=
